@@ -98,3 +98,11 @@ def regions_roundtrip(seq, adj_list, origin, target, path):
 def adj_list_roundtrip(m, shuffle_d0, shuffle_d1):
     "C13: rebuilding a maze from its own adjacency list"
     return LatticeMaze.from_adj_list(m.as_adj_list(shuffle_d0, shuffle_d1))
+
+
+from maze_dataset.token_utils import _coord_to_strings_UT, _coord_to_strings_indexed  # noqa: E402
+
+
+def coord_tokens_agree(ut, ctt, coord):
+    "C07: a legacy tokenizer and its modular equivalent write a cell with the same tokens (ut = CoordTokenizers.UT(), ctt = CoordTokenizers.CTT() with its defaults)"
+    return _coord_to_strings_UT(coord), ut.to_tokens(coord), _coord_to_strings_indexed(coord), ctt.to_tokens(coord)
